@@ -37,11 +37,13 @@ pub struct Spelling {
     pub radix: Radix,
     /// separator after commas / between tokens
     pub wide: bool,
+    /// tokens separated by line breaks (the grammar is insensitive to white space of any kind)
+    pub nl: bool,
 }
 
 impl Default for Spelling {
     fn default() -> Self {
-        Spelling { case: Case::Lower, radix: Radix::Dec, wide: false }
+        Spelling { case: Case::Lower, radix: Radix::Dec, wide: false, nl: false }
     }
 }
 
@@ -63,14 +65,18 @@ impl Spelling {
         }
     }
     pub fn comma(&self) -> &'static str {
-        if self.wide {
+        if self.nl {
+            "\n,\n\n"
+        } else if self.wide {
             " ,\t "
         } else {
             ","
         }
     }
     pub fn sp(&self) -> &'static str {
-        if self.wide {
+        if self.nl {
+            "\n \t\n"
+        } else if self.wide {
             "  \t"
         } else {
             " "
